@@ -66,6 +66,22 @@ def handle : P String := do
   | "slicei" => do
     let cs ← pCS; let p ← P.nat; let v ← P.int; P.done
     pure (showExcept (fun r => s!"{r.1} {r.2}") (sliceByIndex cs p v))
+  | "getitem" => do
+    -- getitem <coord|vox|ctr> <int k | idx <list int> | mask <list bool> | other> <rows>
+    let kt ← P.tok
+    let kind ← (match kt with | "coord" => some ArrKind.coord | "vox" => some ArrKind.vox | "ctr" => some ArrKind.ctr | _ => none : Option ArrKind)
+    let ft ← P.tok
+    let key ← (match ft with
+      | "int" => do let k ← P.int; pure (GetKey.int k)
+      | "idx" => do let ks ← P.list P.int; pure (GetKey.idx ks)
+      | "mask" => do let m ← P.list P.bool; pure (GetKey.mask m)
+      | "other" => pure GetKey.other
+      | _ => failure : P GetKey)
+    let rows ← P.list (P.list P.rat); P.done
+    let showK : ArrKind → String | .coord => "coord" | .vox => "vox" | .ctr => "ctr"
+    pure (showExcept (fun r =>
+      (match r.1 with | .elem k => "elem " ++ showK k | .arr k => "arr " ++ showK k | .plain => "plain") ++ " | " ++ showPts showRats r.2)
+      (getItem kind rows key))
   | "ptto" => do
     let k ← P.tok; let cs ← pCS; let pt ← pPt; P.done
     let kind ← (match k with | "coord" => some PtKind.coord | "vox" => some PtKind.vox | "ctr" => some PtKind.ctr | "other" => some PtKind.other | _ => none : Option PtKind)
